@@ -70,3 +70,7 @@ pub use terminal::{
 
 /// System specific terminal
 pub type SystemTerminal = unix::UnixTerminal;
+
+/// Verification hooks of the unix terminal (fault script for tty writes)
+#[cfg(feature = "verif-hooks")]
+pub use unix::verif as unix_verif;
